@@ -67,7 +67,8 @@ def run(prog, rep, tier):
     elif src - {"call_sd_journal_get_realtime_usec"}:
         rep.violation(R91, nc.path + "|window-time", "next_common: the time tested against the window may come from %s; with the constant override only the receive time may be used" % sorted(src - {"call_sd_journal_get_realtime_usec"}))
     cv = prog.body("s4lib::data::journal::datetimel_to_realtime_timestamp")
-    ro = cv.origins(["cp", [0]])
+    # clamping the value (max(.., 0) / clamp) keeps its provenance
+    ro = set(x for x in cv.origins(["cp", [0]], through_calls=("cmp::max", "cmp::min", "::clamp", "Ord::max", "Ord::min")) if x[0] != "const")
     calls = [c.d for c in cv.live_calls()]
     inst_ok = len(ro) == 1 and all(x[0] == "call" and x[2].endswith("::timestamp_micros") for x in ro)
     recv_ok = False
@@ -217,6 +218,41 @@ def run(prog, rep, tier):
     if dup:
         rep.violation(R94, bd.path + "|distinct", "JournalReader: renderings %s are dispatched identically (same renderer and constants)" % sorted(dup))
     rep.floor(R94, 8)
+
+    # ------------------------------------------------------------ R9.8 a signed instant does not wrap when it becomes the unsigned journal clock
+    # libsystemd's realtime clock is unsigned microseconds.  A window bound before 1970 has a negative
+    # timestamp_micros(); `as u64` turns it into a huge value (every entry is then "before" --dt-after).
+    R98 = rep.rule("R9.8", "conversion of a window bound to the unsigned journal clock clamps negative values")
+    SG = ("i8", "i16", "i32", "i64", "isize", "i128")
+    UG = ("u8", "u16", "u32", "u64", "usize", "u128")
+    n98 = 0
+    for jb in prog.bodies():
+        if "data::journal" not in jb.path and "readers::journalreader" not in jb.path or "_tests" in jb.path:
+            continue
+        for bb in sorted(jb.live):
+            for s_ in jb.stmts(bb):
+                if s_[0] == "=" and s_[2][0] == "cast" and len(s_[1]) == 1 and s_[2][2][0] != "k":
+                    l_ = op_local(s_[2][2])
+                    if l_ is None or str(jb.local_ty(l_)) not in SG or str(jb.local_ty(s_[1][0])) not in UG:
+                        continue
+                    os_ = jb.origins(s_[2][2])
+                    from_ts = any(x[0] == "call" and "timestamp" in x[2].split("::")[-1] for x in os_) or \
+                        any(x[0] == "call" and x[2].split("::")[-1] in ("max", "clamp") for x in os_)
+                    if not from_ts:
+                        continue
+                    n98 += 1
+                    clamped = False
+                    for x in os_:
+                        if x[0] == "call" and x[2].split("::")[-1] in ("max", "clamp"):
+                            mc = [z for z in jb.calls if z.bb == x[1]][0]
+                            if any(jb.eval_int(a) == 0 for a in mc.args):
+                                clamped = True
+                    rep.examined(R98, jb.path + "|signed-to-unsigned", sample={"site": jb.path.split("::")[-1], "line": jb.blocks[bb].get("l"), "clamped_at_zero": clamped})
+                    if not clamped:
+                        rep.violation(R98, jb.path + "|signed-to-unsigned", "%s: timestamp_micros() (signed) is converted with `as` to the unsigned journal clock without clamping; a bound before 1970 wraps to a far-future value: "
+                                      "`-a 19600101T000000` prints nothing and `-b 19600101T000000` prints every entry" % jb.path.split("::")[-1])
+    if n98 == 0:
+        raise CheckerError("R9.8: no signed-to-unsigned conversion of a timestamp found in the journal modules")
 
     # ------------------------------------------------------------ R9.7 export rendering emits the stored item
     # `--journal-output=export` prints every FIELD=value item exactly as libsystemd returns it.  In
